@@ -5,13 +5,15 @@ import json
 import hg
 
 RULE = {
-    "C16": ("PushQueue.tla (level B: every critical section of try_send / send_blocking / try_pop / take_all / conflating policy / "
+    "C16": ("PushQueue.tla (level B: every critical section of try_send / send_blocking / try_pop / take_all / conflating policy (scalar, and "
+            "over a dictionary output with deltas that have no effect: the pending flag) / "
             "mark+reset push pending / stop is one action; policy, capacity, producer kinds and the stop moment are chosen by TLC) is "
             "model-checked exhaustively on the bounded instance against the level-A invariants (delivered is a prefix of accepted, once "
             "per cycle, capacity bound at every step, refusals only when full or stopped, nothing accepted after stop, the loop never "
             "sleeps on accepted values) and, under weak fairness, for eventual delivery.  Binding: TLC-simulated interleavings are "
             "replayed through the pre-lock gates of the real code (critical-section granularity) and seeded free-running stress runs "
-            "(1-4 producers, try/blocking, queue/burst/conflating, capacity 0/1/2/3/16, stopper thread, stop from the sink) are all "
+            "(1-4 producers, try/blocking, queue/burst/conflating/conflating over a dictionary with effective and no-effect deltas, capacity "
+            "0/1/2/3/16, stopper thread, stop from the sink) are all "
             "validated event by event by PushTrace.tla (level A) over sequence-numbered hook events.  exhaustive=true refers to the "
             "bounded model instance only; non-trivial = every executed scenario has at least one send; distinct = distinct scenario text "
             "without its seed."),
@@ -22,7 +24,8 @@ RULE = {
             "nothing scheduled before the end skipped or dropped except by stop / the drain cut, at most the current cycle after a stop "
             "request, no lost notification) and, under fairness, for termination.  Binding: scenarios derived from simulated behaviours "
             "of the model, random timer scripts (relative, absolute, wall-clock, already-due alarms, injected clock jumps past the target "
-            "and past the end, busy re-scheduling through the drain bound), pushes and stop requests from other threads, and replayed "
+            "and past the end, busy re-scheduling through the drain bound), pushes and stop requests from other threads (also bursts of sends "
+            "while the evaluation thread is busy in a cycle, then sends while it waits again: no wait may be sat out on a pushed value), and replayed "
             "stop/push interleavings, run on the real executor and validated by RtTrace.tla (level A; only lower bounds on wall time).  "
             "exhaustive=true refers to the bounded model instance only."),
 }
@@ -74,30 +77,42 @@ def replay_scenarios(pid, chk, quick, Scn):
     chk.notes["simulated_interleavings"] = len(behs)
     out, seen = [], set()
     limit = 150 if quick else 3000
+    # the dictionary source has many more initial configurations (which deltas have no effect): keep its share at a third
+    quota = {"confd": limit // 3}
+    spare = []
     for k, b in enumerate(behs):
-        key = json.dumps([b["policy"], b["cap"], b["kinds"], b["sched"]])
+        key = json.dumps([b["policy"], b["cap"], b["kinds"], b["fx"], b["sched"]])
         if key in seen or len(b["sched"]) < 6:
             continue
         seen.add(key)
         kinds = b["kinds"] if isinstance(b["kinds"], list) else [b["kinds"][str(i + 1)] for i in range(len(b["kinds"]))]
+        # confd: which messages of a producer are deltas without effect (pattern of 0/1 per message)
+        fxs = b["fx"] if isinstance(b["fx"], list) else [b["fx"][str(i + 1)] for i in range(len(b["fx"]))]
+        fxs = ["".join(str(x) for x in (f if isinstance(f, list) else [f[str(i + 1)] for i in range(len(f))])) for f in fxs]
         s = Scn("%sreplay%d" % (pid.lower(), k),
-                {"seed": 1, "end_us": 3000000, "slice_us": 50000, "jitter": 0, "start_us": 0, "watchdog_ms": 12000, "mode": "replay"},
+                {"seed": 1, "end_us": 30000000, "slice_us": 50000, "jitter": 0, "start_us": 0, "watchdog_ms": 12000, "mode": "replay"},
                 srcs=[{"policy": b["policy"], "cap": b["cap"], "stopafter": 0}],
-                prods=[{"pid": i + 1, "src": 0, "kind": kd, "n": b["msgs"], "gap_us": 0, "retries": 0} for i, kd in enumerate(kinds)],
+                prods=[{"pid": i + 1, "src": 0, "kind": kd, "n": b["msgs"], "gap_us": 0, "retries": 0, "fx": fxs[i]} for i, kd in enumerate(kinds)],
                 stopper=0, sched=[(th, g) for th, g in b["sched"]])
         s.predicted = {"accepted": [(v // 10) * 1000 + (v % 10) - 1 for v in b["accepted"]],
                        "delivered": [[(v // 10) * 1000 + (v % 10) - 1 for v in d["vals"]] for d in b["delivered"]]}
+        if b["policy"] in quota and quota[b["policy"]] <= 0:
+            spare.append(s)
+            continue
+        if b["policy"] in quota:
+            quota[b["policy"]] -= 1
         out.append(s)
         if len(out) >= limit:
             break
-    return out
+    return out + spare[:limit - len(out)]
 
 
 def replay_drift(scn, tr):
     """level B prediction of a replayed interleaving: the admission order and the deliveries. None = as predicted."""
     if any(e["e"] == "sched" and e["diverged"] for e in tr):
         return None   # counted separately
-    acc = [e["v"] for e in tr if e["e"] == "h" and e["p"] in ("pq_accepted", "cf_accepted")]
+    nofx = {e["v"] for e in tr if e["e"] == "call" and e.get("fx", 1) == 0}     # accepted, but nothing to deliver
+    acc = [e["v"] for e in tr if e["e"] == "h" and e["p"] in ("pq_accepted", "cf_accepted") and e["v"] not in nofx]
     dlv = [e["vals"] for e in tr if e["e"] == "dlv"]
     if acc != scn.predicted["accepted"] or dlv != scn.predicted["delivered"]:
         return "admission order %s / deliveries %s, PushQueue.tla predicted %s / %s" % (acc, dlv, scn.predicted["accepted"], scn.predicted["delivered"])
